@@ -35,7 +35,7 @@ LEVEL_TEXT = ("generated-input search over operation histories with a reference 
               "checked after every step; not exhaustive")
 LEVEL_NOTE = "trusts sortedcontainers, mitmproxy.test.tflow builders, flow attribute accessors"
 QUICK_N, THOROUGH_N = 24_000, 800_000
-BUDGET_S = (150, 7200)
+BUDGET_S = (300, 7200)
 
 NPOOL = 8
 ORDERS = ["time", "method", "url", "size"]
